@@ -305,7 +305,12 @@ struct SessionsModel : Monitor {
 	void check_routed(const Bytes &pkt, int uid, const Addr &dst, bool rawmode)
 	{
 		w->probes["c04.routed_packets"]++;
-		if (pkt.size() < 24) return;
+		if (pkt.size() < 24) {
+			// too short to contain a destination address: there is no session it could be "for"
+			char b[200]; snprintf(b, sizeof b, "a %zu-byte packet without a destination address was delivered to session %d at %s%s", pkt.size(), uid, dst.str().c_str(), rawmode ? " (raw)" : "");
+			w->S.violate("C04", "routing.no_address", b);
+			return;
+		}
 		uint32_t ipdst = ((uint32_t)pkt[20] << 24) | (pkt[21] << 16) | (pkt[22] << 8) | pkt[23];
 		auto it = slot.find(uid);
 		uint32_t assigned = it != slot.end() ? it->second.assigned_ip_h : 0;
@@ -585,7 +590,7 @@ J gen_sessions(uint64_t seed, const J &ov)
 	int nup = (int)r.range(5, 40);
 	for (int i = 0; i < nup; i++) {
 		J op = J::obj(); op.set("ref", "abs"); op.set("t", when()); op.set("op", "mc"); op.set("who", "m" + std::to_string(r.range(0, nm - 1))); op.set("act", "pkt");
-		op.set("ser", (long long)++ser); op.set("len", (int)r.range(40, 300)); op.set("body", "rnd");
+		op.set("ser", (long long)++ser); op.set("len", (int)(r.chance(0.15) ? r.range(5, 23) : r.range(40, 300))); op.set("body", "rnd");   // some too short for an IP header
 		op.set("dst", r.chance(0.6) ? "srv" : r.chance(0.5) ? "ext" : "m" + std::to_string(r.range(0, nm - 1)));
 		ops.push(op);
 	}
